@@ -22,8 +22,10 @@ COMPS_KINDS = ["Join", "EntityAdd", "EntityDelete", "TypeAdd", "CompAdd", "CompD
 FAMILIES = {
     "core": dict(quick=dict(),                                                                  # 12.5 k / 15 s
                  thorough=[dict(Opens=True, MaxU=3),                                            # 250 k / 2-8 min
-                           dict(Conns=[1, 2, 3], MaxPid=3, Kinds=["Join", "EntityAdd", "EntityDelete"], MaxSid=1, MaxU=1,
-                                JoinSids=[0, 1], MaxEid=1)]),                                   # 3 connections: 2 k / 6 s
+                           dict(Conns=[1, 2, 3], MaxPid=3, Kinds=["Join", "EntityAdd", "EntityDelete"], MaxSid=1, MaxU=2,
+                                JoinSids=[0, 1], MaxEid=2),                                     # 3 connections: 62 k / 61 s
+                           dict(Conns=[1, 2, 3], MaxPid=3, Kinds=["Join", "EntityAdd", "Custom"], MaxSid=2, MaxU=2,
+                                MaxEid=1)]),                                                    # 3 connections, 2 sessions: 103 k / 131 s
     "ids": dict(quick=dict(Kinds=["Join", "EntityAdd", "EntityDelete"], Opens=True, MaxU=3, MaxEid=1, JoinSids=[0, 1, 2]),   # 23 k / 44 s
                 thorough=[dict(MaxU=4, MaxSid=3, JoinSids=[0, 1, 2, 3]),                        # 115 k / 3 min
                           dict(Conns=[1, 2, 3], MaxPid=3, Kinds=["Join"], MaxEid=1)]),          # 3 connections: 15 k / 45 s
